@@ -13,7 +13,8 @@
   wire: a survey's id is the header of its `psend`; a survey that never reached a wire gets
   the id of the first response delivered for it, which must not be the id of any other
   survey), and is one of the responses that arrived after the survey was sent, each arrival
-  delivered at most once; a receive with no live survey fails at once with NNG_ESTATE; a
+  delivered at most once (a response that arrives while 128 responses to its survey are already waiting
+  is discarded by the protocol and not counted); a receive with no live survey fails at once with NNG_ESTATE; a
   parked receive fails with NNG_ETIMEDOUT in the step in which time passes the deadline (or
   its own shorter timeout) and never earlier; a new survey cancels the context's parked
   receives (NNG_ECANCELED) in the same step; survey ids are 4 bytes, high bit set, fresh;
@@ -132,6 +133,18 @@ def SurvJ.bind (j : SurvJ) (body i : Bytes) : SurvJ :=
 
 def validId (i : Bytes) : Bool := i.length == 4 && (i.headD 0).toNat ≥ 128
 
+/-- depth of a surveyor context's receive queue (`recv_lmq`, the default receive buffer) -/
+def survRecvDepth : Nat := 128
+
+/-- a response with id `i` arrives while the survey known to have this id (not abandoned; its deadline does not
+    matter: the id stays registered) already has `survRecvDepth` responses waiting: the protocol discards it -/
+def SurvJ.queueFull (j : SurvJ) (i : Bytes) : Bool :=
+  j.ctxs.any fun c =>
+    match c.survey with
+    | some sv => !sv.dead && j.idOf sv.body == some i &&
+        decide ((j.arrivals.filter fun a => !a.used && a.seq ≥ sv.startSeq && a.id == i).length ≥ survRecvDepth)
+    | none => false
+
 def isLive (now : Nat) (c : CtxJ) : Bool :=
   match c.survey with
   | some sv => !sv.dead && (now : Int) < sv.deadline
@@ -168,7 +181,7 @@ def survRecvDone (j : SurvJ) (ev : Ev) (pr : PendRecv) (rv : Nat) (msg : Option 
       | none => j.fail s!"receive {pr.aio} delivered a message but its context has no survey"
       | some sv =>
         if sv.dead then j.fail s!"receive {pr.aio} delivered a message after the survey was abandoned"
-        else if !((j.now : Int) < sv.deadline) then j.fail s!"receive {pr.aio} delivered a response after the survey deadline"
+        else if sv.deadline < (j.now : Int) then j.fail s!"receive {pr.aio} delivered a response after the survey deadline"
         else
           let j := match j.idOf sv.body with
             | some i => if i == m.hdr then j else j.fail s!"receive {pr.aio} delivered a response to another survey"
@@ -260,7 +273,8 @@ def survStep (j : SurvJ) (ev : Ev) (outs : List Out) : SurvJ :=
       else (j, none)
     | .recvDone _ (.ok b) =>
       if rv0 && b.length ≥ 4 then
-        ({ j with arrivals := j.arrivals ++ [({ seq := j.nseq, id := b.take 4, body := b.drop 4 } : Arrival)], nseq := j.nseq + 1 }, none)
+        -- a response that finds the receive queue of its survey full is discarded: neither owed nor deliverable
+        ({ j with arrivals := j.arrivals ++ [({ seq := j.nseq, id := b.take 4, body := b.drop 4, used := j.queueFull (b.take 4) } : Arrival)], nseq := j.nseq + 1 }, none)
       else (j, none)
     | .recv k a mode =>
       let (own, zero) : Option Int × Bool := match mode with
